@@ -2166,8 +2166,9 @@ def eqn2_helpers(e, bitslice=False, widening=False):
             # external != 0 ? => true, we assume ext is defined
             if e.op.symbol == OP_NEQ and e.l._is_ext:
                 return bit1
-        # if e:= (l [|*/] 1) then e:= l
-        elif e.r.value == 1 and e.op.symbol in (OP_MUL, OP_MUL2, OP_DIV):
+        # if e:= (l [*/] 1) then e:= l
+        # (not for the widening multiply, which has twice the size of l)
+        elif e.r.value == 1 and e.op.symbol in (OP_MUL, OP_DIV):
             return e.l
         # if e:= (l & mask) then e:= l[i1:i2]
         elif e.op.symbol == OP_AND and ismask(e.r.value):
